@@ -16,7 +16,16 @@ use std::collections::{BTreeMap, BTreeSet, HashMap, HashSet};
 pub struct Issue {
     pub prop: &'static str,
     pub rule: String,
+    /// Workload class in which the rule failed (derived from the problem, e.g. `reload-shift`, `limit-duration`, `plain`).
+    pub ctx: String,
     pub detail: String,
+}
+
+impl Issue {
+    /// `C01|capacity|reload-shift`: stable signature used for known-finding matching.
+    pub fn signature(&self) -> String {
+        format!("{}|{}|{}", self.prop, self.rule, self.ctx)
+    }
 }
 
 #[derive(Default, Debug)]
@@ -32,12 +41,15 @@ pub struct Report {
     pub partial: BTreeSet<String>,
     /// Per tour: the assigned job ids in visiting order (for relation derivation, C11...).
     pub tour_jobs: Vec<(String, usize, Vec<String>)>,
+    /// Context of the tour being replayed (set by `replay_tour`).
+    cur_ctx: String,
 }
 
 impl Report {
     fn issue(&mut self, prop: &'static str, rule: &str, detail: String) {
         if self.issues.len() < 200 {
-            self.issues.push(Issue { prop, rule: rule.to_string(), detail });
+            let ctx = if self.cur_ctx.is_empty() { "solution".to_string() } else { self.cur_ctx.clone() };
+            self.issues.push(Issue { prop, rule: rule.to_string(), ctx, detail });
         }
     }
 
@@ -459,6 +471,7 @@ pub fn replay_parsed(p: &PProblem, solution: &Value) -> Result<Report, String> {
     for (ti, tour) in tours.iter().enumerate() {
         rep.tours += 1;
         replay_tour(p, ti, tour, &mut rep, &mut used_shifts, &mut job_tours, &mut job_tasks_done, &mut resource_use, &mut group_tours, &mut sum_stat)?;
+        rep.cur_ctx.clear();
     }
 
     // ---- shared resources (C01)
@@ -468,7 +481,11 @@ pub fn replay_parsed(p: &PProblem, solution: &Value) -> Result<Report, String> {
             let binding = used.iter().zip(cap.iter()).any(|(u, c)| c - u <= 1);
             rep.rule("shared-resource", binding);
             if over {
+                // incomparable = exceeded in some but not all dimensions
+                let all_over = used.iter().zip(cap.iter()).all(|(u, c)| u > c);
+                rep.cur_ctx = if cap.len() > 1 && !all_over { "multi-dim-partial".into() } else { "all-dims".into() };
                 rep.issue("C01", "shared-resource", format!("resource {rid}: consumed {used:?} > capacity {cap:?}"));
+                rep.cur_ctx.clear();
             }
         }
     }
@@ -542,8 +559,9 @@ pub fn replay_parsed(p: &PProblem, solution: &Value) -> Result<Report, String> {
     }
     rep.rule("conservation", rep.unassigned_jobs > 0);
     for v in solution.get("violations").and_then(|v| v.as_array()).into_iter().flatten() {
-        let vid = v.get("vehicleId").and_then(|x| x.as_str()).unwrap_or("");
-        let si = v.get("shiftIndex").and_then(|x| x.as_u64()).unwrap_or(0) as usize;
+        // the documentation says vehicleId/shiftIndex, the writer emits vehicle_id/shift_index: both are accepted
+        let vid = v.get("vehicleId").or_else(|| v.get("vehicle_id")).and_then(|x| x.as_str()).unwrap_or("");
+        let si = v.get("shiftIndex").or_else(|| v.get("shift_index")).and_then(|x| x.as_u64()).unwrap_or(0) as usize;
         let ok = p.vehicle_of(vid).and_then(|veh| veh.shifts.get(si)).is_some_and(|s| !s.breaks.is_empty() || s.required_breaks > 0);
         if !ok {
             rep.issue("C02", "violation-unknown-break", format!("violations lists a break for {vid}/{si} which defines none"));
@@ -631,6 +649,16 @@ fn replay_tour(
     };
     let fractional = veh.scale.fract() != 0.0;
     let tol: f64 = if fractional { 1.0 } else { 0.0 };
+    rep.cur_ctx = {
+        let mut c: Vec<&str> = Vec::new();
+        if !shift.reloads.is_empty() {
+            c.push("reload-shift");
+        }
+        if veh.max_duration.is_some() {
+            c.push("limit-duration");
+        }
+        if c.is_empty() { "plain".to_string() } else { c.join("+") }
+    };
     let stops = tour["stops"].as_array().ok_or("tour.stops")?;
     if stops.is_empty() {
         rep.issue("C02", "empty-tour", format!("tour {ti} has no stops"));
@@ -789,6 +817,8 @@ fn replay_tour(
             let arrival = t;
             // candidate (duration, windows, kind) options for this activity
             let mut options: Vec<(f64, Vec<(i64, i64)>, ActKind)> = Vec::new();
+            // places at the same location whose tag is NOT the reported one (used to classify a misreported tag)
+            let mut siblings: Vec<(f64, Vec<(i64, i64)>, ActKind)> = Vec::new();
             let mut place_known = false;
             match ty {
                 "pickup" | "delivery" | "replacement" | "service" => {
@@ -815,6 +845,8 @@ fn replay_tour(
                             if place.loc == a_loc && place.tag.as_deref() == tag {
                                 place_known = true;
                                 options.push((place.duration, place.times.clone(), ActKind::Job { job: ji, task: tix }));
+                            } else if place.loc == a_loc {
+                                siblings.push((place.duration, place.times.clone(), ActKind::Job { job: ji, task: tix }));
                             }
                         }
                     }
@@ -823,7 +855,10 @@ fn replay_tour(
                         acts.push(ActRec { kind: ActKind::Other, stop: sidx });
                         continue;
                     }
-                    if options.is_empty() {
+                    if options.is_empty() && !siblings.is_empty() {
+                        // a place at that location exists but carries another tag: judged below as a tag issue
+                        place_known = true;
+                    } else if options.is_empty() {
                         // either all tasks of that kind consumed (duplicate) or no place matches location+tag
                         let all_done = job.tasks.iter().enumerate().filter(|(_, t)| t.kind.as_str() == ty).all(|(i, _)| done.contains(&i));
                         if all_done {
@@ -884,6 +919,8 @@ fn replay_tour(
                             if loc_ok && bp.tag.as_deref() == tag {
                                 place_known = true;
                                 options.push((bp.duration, vec![win], ActKind::Break { def: bi }));
+                            } else if loc_ok {
+                                siblings.push((bp.duration, vec![win], ActKind::Break { def: bi }));
                             }
                         }
                     }
@@ -911,6 +948,8 @@ fn replay_tour(
                         if r.loc == a_loc && r.tag.as_deref() == tag {
                             place_known = true;
                             options.push((r.duration, r.times.clone(), ActKind::Reload { def: Some(ri) }));
+                        } else if r.loc == a_loc {
+                            siblings.push((r.duration, r.times.clone(), ActKind::Reload { def: Some(ri) }));
                         }
                     }
                     if shift.reloads.is_empty() {
@@ -930,37 +969,103 @@ fn replay_tour(
                     continue;
                 }
             }
+            if !place_known && !siblings.is_empty() {
+                place_known = true;
+            }
             if !place_known {
-                let (prop, rule) = match ty {
-                    "break" => ("C02", "break-unmatched"),
-                    _ => ("C02", "reload-unmatched"),
+                // does it match a definition which another activity of this tour already consumed? then it is a duplicate
+                let duplicate = match ty {
+                    "break" => shift.breaks.iter().enumerate().any(|(bi, b)| {
+                        break_defs_used[bi]
+                            && b.places.iter().any(|bp| {
+                                (match bp.loc {
+                                    Some(l) => l == a_loc,
+                                    None => a_loc == prev_act_loc,
+                                }) && bp.tag.as_deref() == tag
+                            })
+                    }),
+                    _ => shift.reloads.iter().enumerate().any(|(ri, r)| reload_defs_used[ri] && r.loc == a_loc && r.tag.as_deref() == tag),
                 };
-                rep.issue(prop, rule, format!("tour {ti}: {ty} at location {a_loc} tag {tag:?} matches no unused {ty} definition of shift {vid}/{si}"));
+                let rule = match (ty, duplicate) {
+                    ("break", true) => "break-duplicated",
+                    ("break", false) => "break-unmatched",
+                    (_, true) => "reload-duplicated",
+                    (_, false) => "reload-unmatched",
+                };
+                let saved = rep.cur_ctx.clone();
+                rep.cur_ctx = "special-stop".into();
+                rep.issue("C02", rule, format!("tour {ti}: {ty} at location {a_loc} tag {tag:?} matches no unused {ty} definition of shift {vid}/{si} (the shift defines {} break(s), {} reload(s))", shift.breaks.len(), shift.reloads.len()));
+                rep.cur_ctx = saved;
                 acts.push(ActRec { kind: if ty == "reload" { ActKind::Reload { def: None } } else { ActKind::Other }, stop: sidx });
+                // keep the statistics replay in step with the reported interval so that this issue is reported once
+                let w = (r_start as f64 - arrival).max(0.0);
+                if w > 0.0 {
+                    waits += 1;
+                }
+                waiting += w as i64;
+                if ty == "break" {
+                    brk += r_end - r_start;
+                } else {
+                    serving += r_end - r_start;
+                }
                 t = r_end as f64;
                 prev_act_loc = a_loc;
                 continue;
             }
-            // choose an option consistent with the reported interval
-            let mut best: Option<(f64, f64, f64, ActKind, bool)> = None; // (start, end, duration, kind, binding)
-            let mut tw_feasible = false;
-            for (duration, windows, kind) in options.iter() {
-                let ws: Vec<(f64, f64)> = if windows.is_empty() { vec![(f64::MIN, f64::MAX)] } else { windows.iter().map(|(s, e)| (*s as f64, *e as f64)).collect() };
-                for (ws_, we_) in ws {
-                    if arrival > we_ + tol {
-                        continue;
-                    }
-                    tw_feasible = true;
-                    let start = arrival.max(ws_);
-                    let end = start + duration;
-                    let ok_s = partial || time_matches(r_start, start, tol);
-                    let ok_e = partial || time_matches(r_end, end, tol);
-                    if ok_s && ok_e {
-                        let binding = we_ - arrival <= 1.0;
-                        if best.is_none() {
-                            best = Some((start, end, *duration, kind.clone(), binding));
+            // picks the (place, window) whose replayed (start, end) is closest to the reported interval (within the rounding unit)
+            let choose = |options: &[(f64, Vec<(i64, i64)>, ActKind)]| -> (Option<(f64, f64, f64, ActKind, bool)>, bool, f64) {
+                let mut best: Option<(f64, f64, f64, ActKind, bool)> = None; // (start, end, duration, kind, binding)
+                let mut best_err = f64::MAX;
+                let mut tw_feasible = false;
+                for (duration, windows, kind) in options.iter() {
+                    let ws: Vec<(f64, f64)> = if windows.is_empty() { vec![(f64::MIN, f64::MAX)] } else { windows.iter().map(|(s, e)| (*s as f64, *e as f64)).collect() };
+                    for (ws_, we_) in ws {
+                        if arrival > we_ + tol {
+                            continue;
+                        }
+                        tw_feasible = true;
+                        let start = arrival.max(ws_);
+                        let end = start + duration;
+                        let ok_s = partial || time_matches(r_start, start, tol);
+                        let ok_e = partial || time_matches(r_end, end, tol);
+                        let err = (r_start as f64 - start).abs() + (r_end as f64 - end).abs();
+                        if ok_s && ok_e && err < best_err {
+                            best_err = err;
+                            best = Some((start, end, *duration, kind.clone(), we_ - arrival <= 1.0));
                         }
                     }
+                }
+                (best, tw_feasible, best_err)
+            };
+            let (mut best, tw_feasible, best_err) = choose(&options);
+            if (best.is_none() || best_err >= 1.0) && !siblings.is_empty() && !partial {
+                let (sib, _, sib_err) = choose(&siblings);
+                if sib.is_some() && sib_err < best_err {
+                    // the reported interval is explained (better) by another place of the same task at the same location:
+                    // the activity carries the tag of a place which was not the one used
+                    let saved = rep.cur_ctx.clone();
+                    rep.cur_ctx = match ty {
+                        "break" => {
+                            let offset = matches!(&sib, Some((_, _, _, ActKind::Break { def }, _)) if matches!(shift.breaks[*def].time, BreakTime::Offset(..)));
+                            if offset { "break-offset-time".into() } else { "break".into() }
+                        }
+                        "reload" => "reload".into(),
+                        _ => "job".into(),
+                    };
+                    let rule = if !options.is_empty() {
+                        "place-tag-sibling"
+                    } else if tag.is_none() {
+                        "place-tag-missing"
+                    } else {
+                        "place-tag-of-other-place"
+                    };
+                    rep.issue(
+                        "C03",
+                        rule,
+                        format!("tour {ti}: {ty} {job_id} at {a_loc}: reported tag {tag:?} but interval [{} .. {}] is the one of a sibling place with another tag (same location, other duration/window)", crate::timeutil::fmt_time(r_start), crate::timeutil::fmt_time(r_end)),
+                    );
+                    rep.cur_ctx = saved;
+                    best = sib;
                 }
             }
             let rule_name = match ty {
@@ -1015,7 +1120,7 @@ fn replay_tour(
                         );
                     }
                     // keep going with the reported end; account the task so that conservation is judged separately
-                    let kind = options[0].2.clone();
+                    let kind = options.first().or(siblings.first()).map(|o| o.2.clone()).unwrap_or(ActKind::Other);
                     if let ActKind::Job { job, task } = &kind {
                         job_tasks_done.entry(*job).or_default().push(*task);
                     }
@@ -1249,6 +1354,11 @@ fn tour_job_ids_with_specials(stops: &[Value]) -> Vec<String> {
 }
 
 fn check_relation(r: &PRelation, seq: &[String], ti: usize, rep: &mut Report) {
+    // `any` pins jobs to the vehicle only (they may be ruined and end up unassigned): judged globally in
+    // `check_relation_vehicles`. `sequence`/`strict` members are locked: they stay in the tour, in order.
+    if r.kind == "any" {
+        return;
+    }
     // positions of the relation's jobs in the tour, each relation entry consumes the next occurrence
     let mut positions: Vec<Option<usize>> = Vec::new();
     let mut used: HashSet<usize> = HashSet::new();
@@ -1262,12 +1372,11 @@ fn check_relation(r: &PRelation, seq: &[String], ti: usize, rep: &mut Report) {
     rep.rule(&format!("relation-{}", r.kind), true);
     if positions.iter().any(|p| p.is_none()) {
         let missing: Vec<&String> = r.jobs.iter().zip(positions.iter()).filter(|(_, p)| p.is_none()).map(|(j, _)| j).collect();
-        rep.issue("C01", &format!("relation-{}-vehicle", r.kind), format!("tour {ti} ({}/{}): relation jobs {missing:?} are not in this tour", r.vehicle_id, r.shift_index));
+        rep.issue("C01", &format!("relation-{}-missing", r.kind), format!("tour {ti} ({}/{}): locked relation jobs {missing:?} are not in this tour", r.vehicle_id, r.shift_index));
         return;
     }
     let pos: Vec<usize> = positions.into_iter().flatten().collect();
     match r.kind.as_str() {
-        "any" => {}
         "sequence" => {
             if pos.windows(2).any(|w| w[0] >= w[1]) {
                 rep.issue("C01", "relation-sequence-order", format!("tour {ti}: sequence relation {:?} is visited in order {pos:?}", r.jobs));
@@ -1282,17 +1391,38 @@ fn check_relation(r: &PRelation, seq: &[String], ti: usize, rep: &mut Report) {
     }
 }
 
+/// Relation pinning to the vehicle: a job named by a relation never rides in a tour of another vehicle shift.
+pub fn check_relation_vehicles(p: &PProblem, solution: &Value, rep: &mut Report) {
+    let reserved = ["departure", "arrival", "break", "reload"];
+    for r in p.relations.iter() {
+        for (ti, tour) in solution["tours"].as_array().into_iter().flatten().enumerate() {
+            let vid = tour["vehicleId"].as_str().unwrap_or("");
+            let si = tour.get("shiftIndex").and_then(|s| s.as_u64()).unwrap_or(0) as usize;
+            if vid == r.vehicle_id && si == r.shift_index {
+                continue;
+            }
+            let ids = tour_job_ids_with_specials(tour["stops"].as_array().map(|v| v.as_slice()).unwrap_or(&[]));
+            for j in r.jobs.iter().filter(|j| !reserved.contains(&j.as_str())) {
+                rep.rule(&format!("relation-{}", r.kind), true);
+                if ids.contains(j) {
+                    rep.issue("C01", &format!("relation-{}-vehicle", r.kind), format!("job {j} is pinned to {}/{} by a relation but rides in tour {ti} ({vid}/{si})", r.vehicle_id, r.shift_index));
+                }
+            }
+        }
+    }
+}
+
 /// The relation rule when the tour of the named vehicle shift is absent altogether.
 pub fn check_relations_have_tours(p: &PProblem, solution: &Value, rep: &mut Report) {
     let tours: Vec<(String, usize)> = solution["tours"]
         .as_array()
         .map(|a| a.iter().map(|t| (t["vehicleId"].as_str().unwrap_or("").to_string(), t.get("shiftIndex").and_then(|s| s.as_u64()).unwrap_or(0) as usize)).collect())
         .unwrap_or_default();
-    for r in p.relations.iter() {
+    for r in p.relations.iter().filter(|r| r.kind != "any") {
         if !tours.iter().any(|(v, s)| *v == r.vehicle_id && *s == r.shift_index) {
             let customer: Vec<&String> = r.jobs.iter().filter(|j| !["departure", "arrival", "break", "reload"].contains(&j.as_str())).collect();
             if !customer.is_empty() {
-                rep.issue("C01", &format!("relation-{}-vehicle", r.kind), format!("relation on {}/{} with jobs {customer:?}: that vehicle shift drives no tour", r.vehicle_id, r.shift_index));
+                rep.issue("C01", &format!("relation-{}-missing", r.kind), format!("locked relation on {}/{} with jobs {customer:?}: that vehicle shift drives no tour", r.vehicle_id, r.shift_index));
             }
         }
     }
